@@ -125,6 +125,75 @@ mod h {
 '''
 
 
+VERUS = r'''use vstd::prelude::*;
+verus! {
+pub type Word = u64;
+pub type Bytes32 = [u8; 32];
+/// shim for fuel_vm::state::DebugEval
+#[derive(Clone, Copy)]
+pub enum DebugEval { Breakpoint(u64), Continue }
+// ---- extracted verbatim from fuel-vm src/state.rs (R1) ----
+#[derive(Clone, Copy)]
+@PROGRAM_STATE@
+pub struct IErr;
+pub struct Interp { _p: () }
+impl Interp {
+    /// ASSUMED contract of Interpreter::resume: returns any result
+    #[verifier::external_body]
+    pub fn resume(&mut self) -> (r: Result<ProgramState, IErr>) { unimplemented!() }
+}
+pub struct Exec { pub interpreter: Interp }
+pub open spec fn terminal(s: ProgramState) -> bool { s is Return || s is ReturnData || s is Revert }
+
+impl Exec {
+/// TestExecutor::execute, loop #0 (verbatim; R2: loop contract and one ghost assignment spliced in).
+/// No `decreases`: the VM may run forever; partial correctness only.
+#[verifier::exec_allows_no_decreases_clause]
+pub fn execute_loop(&mut self, first: ProgramState) -> (state: Result<ProgramState, IErr>)
+    ensures state is Ok, terminal(state->Ok_0),
+{
+    let mut state: Result<ProgramState, IErr> = Ok(first);
+    let ghost mut prev = state;
+    @LOOP@
+    state
+}
+}
+} // verus!
+fn main() {}
+'''
+
+LOOP_CONTRACT = '''
+        invariant_except_break true,
+        // `prev` is the state at the head of the last iteration, i.e. the first state or the last result of resume():
+        // a VM error is reported as Revert(0); a terminal state is reported unchanged; nothing else leaves the loop
+        ensures match prev { Err(_) => state matches Ok(s) && s == ProgramState::Revert(0), Ok(p) => terminal(p) && state == Ok::<ProgramState, IErr>(p) },
+    '''
+
+
+def build_verus(tier):
+    fr = vf.extract([
+        {"id": "pstate", "file": registry_file("fuel-vm", "src/state.rs"), "locator": {"kind": "item", "item": "enum", "name": "ProgramState", "attrs": "strip"}},
+        {"id": "execute", "file": "forc-test/src/execute.rs", "locator": {"kind": "impl_fn", "self_ty": "TestExecutor", "name": "execute"}},
+    ])
+    ex = fr["execute"]
+    if len(ex["loops"]) != 1 or ex["loops"][0]["kind"] != "loop":
+        raise vf.Undecided("TestExecutor::execute no longer has exactly one `loop`")
+    lp = ex["loops"][0]
+    head = ex["text"][lp["start"]:lp["body_open"]]
+    body = ex["text"][lp["body_open"]:lp["body_close"]]
+    if head.strip() != "loop":
+        raise vf.Undecided("unexpected loop header %r" % head)
+    loop = "loop" + LOOP_CONTRACT + "{\n            proof { prev = state; }" + body[1:]
+    src = VERUS.replace("@PROGRAM_STATE@", fr["pstate"]["text"]).replace("@LOOP@", loop)
+    obs = [vf.Ob("execute_loop", "C29", what="TestExecutor::execute's loop, for ANY number of resume steps: it ends only in Return/ReturnData/Revert, reported unchanged, or in Revert(0) after a VM error (partial correctness)")]
+    u = vf.VerusUnit("c29_execute_loop", src, obs, extra_args=["--triggers-mode", "silent"])
+    u.fragments = [vf.frag_record(fr["pstate"]), dict(vf.frag_record(ex), note="loop #0 of this fn")]
+    u.rewrites = [{"rule": "R2", "before": "loop {", "after": "loop invariant_except_break/ensures { proof { prev = state; }", "times": 1},
+                  {"rule": "R1", "before": "derives of ProgramState", "after": "Clone, Copy", "times": 1}]
+    u.assumptions = ["Interpreter::resume returns an arbitrary Result<ProgramState, _> (assumed contract)", "termination is not claimed (the VM may run forever)"]
+    return [u]
+
+
 def build(tier):
     specs = [
         {"id": "passed", "file": "forc-test/src/lib.rs", "locator": {"kind": "impl_fn", "self_ty": "TestResult", "name": "passed"}},
